@@ -220,17 +220,39 @@ def rule_node(ctx: Ctx):
             rep.check(col != "self.state_active_fillcolor" and bool(fills), "C18.highlight", fn.loc(), "every other state is not highlighted", fn.key, f"fill={col}")
     rep.floor("C18.node", "returning paths of _state_as_node", n, 4)
     sa = ctx.fn(f"{CLS}._state_actions")
-    ok = False
-    for p in ctx.paths(sa, inline=None, exc_edges="none"):
-        for e in p.of("comp"):
-            c = e.term
-            if isinstance(c, ast.GeneratorExp) and len(c.generators) == 1:
-                g = c.generators[0]
-                t = g.target.id if isinstance(g.target, ast.Name) else "?"
-                if show(g.iter) == f"{sa.params[1]}.transitions" and [show(i) for i in g.ifs] == [f"{t}.internal"] and f"{t}.event" in show(c.elt):
-                    ok = True
-        break
-    rep.check(ok, "C18.node", sa.loc(), "internal transitions (and only they) are listed inside their state's label", sa.key, "internal-transition listing")
+    # the listing, read as the loop it is (comprehension or explicit loop): one entry per internal transition
+    listed, skipped, bad = 0, 0, []
+    for p in ctx.paths(sa, inline=None, exc_edges="none", unroll=1, loops_for_comps="all"):
+        evs = p.events
+        marks = [e for e in evs if e.kind in ("iter", "exhaust") and e.x.get("loop", "for") == "for" and xshow(e.term, evs) == f"{sa.params[1]}.transitions"]
+        for a, b in zip(marks, marks[1:]):
+            if a.kind != "iter":
+                continue
+            el = show(a.x["elem"])
+            seg = evs[a.idx + 1: b.idx]
+            internal = None
+            for br in seg:
+                if br.kind == "branch":
+                    t, pol = br.term, br.x["taken"]
+                    while isinstance(t, ast.UnaryOp) and isinstance(t.op, ast.Not):
+                        t, pol = t.operand, not pol
+                    if xshow(t, evs) == f"{el}.internal":
+                        internal = pol
+                    else:
+                        bad.append(f"listing tests `{xshow(t, evs)}`")
+            apps = [c for c in seg if c.kind == "call" and isinstance(c.term.func, ast.Attribute) and c.term.func.attr == "append"]
+            if internal is True:
+                listed += 1
+                if not (len(apps) == 1 and f"{el}.event" in xshow(apps[0].term.args[0], evs)):
+                    bad.append("an internal transition is not listed by its event")
+            elif internal is False:
+                skipped += 1
+                if apps:
+                    bad.append("an external transition is listed inside the state's label")
+            else:
+                bad.append("a transition is listed without testing `internal`" if apps else "no `internal` test")
+    rep.check(not bad and listed > 0 and skipped > 0, "C18.node", sa.loc(), "internal transitions (and only they) are listed inside their state's label", sa.key,
+              "; ".join(sorted(set(bad))) or f"{listed} listed / {skipped} skipped iterations")
 
 
 RULES = [rule_graph, rule_initial, rule_edge, rule_label_source, rule_node]
